@@ -1,1 +1,16 @@
 import SwcVerif.Props.C13
+#print axioms C13.sphere_volume
+#print axioms C13.cap_volume
+#print axioms C13.frustum_volume
+#print axioms C13.frustum_symm
+#print axioms C13.lens_disjoint
+#print axioms C13.lens_nested
+#print axioms C13.lens_proper
+#print axioms C13.lens_volume
+#print axioms C13.lens_symm
+#print axioms C13.concentric_wide
+#print axioms C13.concentric_narrow
+#print axioms C13.concentric_volume
+#print axioms C13.exitT_on_sphere
+#print axioms C13.exitT_eq_model
+#print axioms C13.union_volume
